@@ -207,3 +207,48 @@ def rule_uto_apply(ck: Check, rule: str) -> None:
     rets = sb.returns()
     if not (len(rets) == 1 and rets[0].term[0] in ("lv", "call")):
         ck.violated(rule, "uto_apply_block returns the accumulated map", "returns %s" % "; ".join(show(r.term) for r in rets), sb.fi.loc)
+
+
+# --------------------------------------------------------------------------- loop body normal form
+def loop_updates(ck: Check, qualname: str, which: int = 0) -> Tuple[Optional[Term], Dict[str, Term], FuncInfo]:
+    """For the `which`-th loop (source order) of a function: (normalised loop condition / domain, {name: normalised update term}).
+    Loop-carried names appear as ('lv', name, 0), so renaming locals consistently does not matter only through the spec's own names:
+    the caller compares against a spec written over the function's own carried names."""
+    import ast as _ast
+    from ..engine.terms import Norm, Scope
+    fi = ck.repo.func(qualname)
+    summ = ck.summ(qualname, 0)
+    loops = [n for n in _ast.walk(fi.node) if isinstance(n, (_ast.While, _ast.For))]
+    loops.sort(key=lambda n: (n.lineno, n.col_offset))
+    if which >= len(loops):
+        raise AnalysisError("%s has no loop #%d" % (qualname, which))
+    lp = loops[which]
+    from ..engine.walker import assigned_names
+    carried = assigned_names(lp.body)
+    scope = Scope(fi.module, fi)
+    for p_ in fi.params:
+        scope.env[p_] = ("v", p_)
+    for n in carried:
+        if not n.startswith("@"):
+            scope.env[n] = ("lv", n, 0)
+    norm = summ.norm
+    saved = norm.on_call
+    norm.on_call = None
+    ups: Dict[str, Term] = {}
+    try:
+        head = norm.norm(lp.test, scope) if isinstance(lp, _ast.While) else norm.norm(lp.iter, scope)
+        if isinstance(lp, _ast.For):
+            norm.bind_target(lp.target, head, scope)
+        for st in lp.body:
+            if isinstance(st, _ast.Assign) and len(st.targets) == 1 and isinstance(st.targets[0], _ast.Name):
+                v = norm.norm(st.value, scope)
+                ups[st.targets[0].id] = v
+                scope.env[st.targets[0].id] = v
+            elif isinstance(st, _ast.AugAssign) and isinstance(st.target, _ast.Name):
+                cur = scope.env.get(st.target.id, ("lv", st.target.id, 0))
+                v = norm.mk_binop(st.op, cur, norm.norm(st.value, scope), scope)
+                ups[st.target.id] = v
+                scope.env[st.target.id] = v
+    finally:
+        norm.on_call = saved
+    return head, ups, fi
